@@ -72,6 +72,17 @@ def main():
                     "CONSTANTS\n" + toy_curve_consts(p, d, zeta) + (" R = %d\n Mode = \"%s\"\n" % (r, mode)) + INT_OPS +
                     "INIT Init\nNEXT Next\nINVARIANT %s\nCHECK_DEADLOCK FALSE\n" % inv)
                 index.append(name)
+    # C13/C14: gadget constraint blocks, all inputs x all hint pairs
+    for (p, d) in TOY[:6]:
+        n = order(p, d); r = n // 4
+        zeta = nonres(p)[0]
+        for mode in ["decode", "compress", "elligator"]:
+            name = "MC_Gadgets_p%d_%s.cfg" % (p, mode)
+            inv = {"decode":"InvDecode","compress":"InvCompress","elligator":"InvElligator"}[mode]
+            open(os.path.join(spec, "cfg", name), "w").write(
+                "CONSTANTS\n" + toy_curve_consts(p, d, zeta) + (" R = %d\n Mode = \"%s\"\n" % (r, mode)) + INT_OPS +
+                "INIT Init\nNEXT Next\nINVARIANT %s\nCHECK_DEADLOCK FALSE\n" % inv)
+            index.append(name)
     # C09: square-root routines on fields of larger two-adicity; (p, W)
     for (p, w) in [(97, 2), (193, 2), (193, 4), (257, 3), (641, 3), (769, 3), (769, 5)]:
         zs = nonres(p)
